@@ -176,9 +176,19 @@ def conversions_drop_caches(ctx, model, prop, rule):
         if last_store is None:
             raise AnalysisError(f"{name}: no store into self.data_raw found")
         n += 1
-        resets = {f: any(isinstance(st, _ast.Assign) and any(_ast.unparse(t) == f"self.{f}" for t in st.targets)
-                         and isinstance(st.value, _ast.Constant) and st.value.value is None for st in body[last_store + 1:])
-                  for f in ("l_interpolator", "p_interpolator")}
+        def resets_in(stmts, f, depth=0):
+            for st in stmts:
+                if isinstance(st, _ast.Assign) and any(_ast.unparse(t) == f"self.{f}" for t in st.targets) \
+                        and isinstance(st.value, _ast.Constant) and st.value.value is None:
+                    return True
+                # idiom: an unconditional call of a helper method whose top-level body resets the field
+                if depth == 0 and isinstance(st, _ast.Expr) and isinstance(st.value, _ast.Call) and isinstance(st.value.func, _ast.Attribute) \
+                        and _ast.unparse(st.value.func.value) == "self":
+                    helper = ci.find_method(st.value.func.attr)
+                    if helper is not None and resets_in(helper.node.body, f, 1):
+                        return True
+            return False
+        resets = {f: resets_in(body[last_store + 1:], f) for f in ("l_interpolator", "p_interpolator")}
         ctx.ob(all(resets.values()), Finding(
             f"{prop}.{rule}", fi.where, f"{name}|cache-reset-conditional:{[f for f, ok in resets.items() if not ok]}",
             f"{name} stores converted data but does not unconditionally reset {[f for f, ok in resets.items() if not ok]} afterwards: "
